@@ -83,7 +83,8 @@ def ops_for(cls):
 OPS = {c: ops_for(c) for c in CLASSES}          # core alphabet: exhaustive to length 3 (4)
 # extended alphabet (exhaustive to length 2, random beyond): a numpy-scalar sampling frequency, reads of the
 # frequency axis, and the caller changing *its own* array in place, with and without re-assigning it
-EXTRA = [["set", "sampling", "np64:4.0"], ["freq"], ["mutate"], ["mutate_set"]]
+EXTRA = [["set", "sampling", "np64:4.0"], ["freq"], ["mutate"], ["mutate_set"],
+         ["bad", "NFFT", 0], ["bad", "NFFT", -4], ["bad", "NFFT", 12.5], ["bad", "sides", "dummy"]]
 OPS_EXT = {c: OPS[c] + EXTRA for c in CLASSES}
 
 
@@ -148,6 +149,10 @@ class HistFail(Exception):
     def __init__(self, kind, step, op, msg):
         Exception.__init__(self, msg)
         self.kind, self.step, self.op, self.msg = kind, step, op, msg
+
+
+class Unmodelled(Exception):
+    """the history left the model (an invalid value was accepted): no claim"""
 
 
 def run_history(cls, d0, hist):
@@ -241,6 +246,16 @@ def run_history(cls, d0, hist):
                     else:
                         ch = old != new
                     changed_after = changed_after or ch
+            elif kind == "bad":
+                # an assignment the class documents as invalid, caught by the caller.  Nothing is claimed about the call itself
+                # (if it is accepted the rest of the history is outside the model); if it is rejected, the object must still be
+                # what its attributes say: the final comparison with the fresh object, df and the axis length decide.
+                attr, v = op[1], op[2]
+                try:
+                    setattr(p, attr, v)
+                except Exception:      # noqa -- any exception is a rejection
+                    continue
+                raise Unmodelled("the invalid assignment %s = %r was accepted" % (attr, v))
             elif kind == "reassign":
                 attr = op[1]
                 before = np.array(p.psd, copy=True)
@@ -250,7 +265,7 @@ def run_history(cls, d0, hist):
                 if not same(before, after, exact=True):
                     raise HistFail("reassign-changed", i, op,
                                    "re-assigning the unchanged value of %s altered psd (%d -> %d values)" % (attr, len(before), len(np.asarray(after))))
-        except HistFail:
+        except (HistFail, Unmodelled):
             raise
         except Exception as e:   # noqa
             raise HistFail("exception", i, op, "operation %s raised %s: %s" % (op, type(e).__name__, str(e)[:80]))
@@ -277,7 +292,7 @@ def run_history(cls, d0, hist):
 
 def culprit(hist):
     for op in reversed(hist):
-        if op[0] in ("set", "reassign"):
+        if op[0] in ("set", "reassign", "bad"):
             return "%s:%s" % (op[0], op[1])
         if op[0] in ("mutate", "mutate_set", "freq"):
             return op[0]
@@ -287,6 +302,8 @@ def culprit(hist):
 def check_one(ctx, cls, d0, hist):
     try:
         return run_history(cls, d0, hist)
+    except Unmodelled:
+        return False
     except HistFail as e:
         raise Violation("%s(%s) after %s: %s" % (cls, d0, hist, e.msg),
                         {"kind": e.kind, "culprit": culprit(hist)},
@@ -404,15 +421,19 @@ def long_case(draw):
     # mostly the extended alphabet (indices shrink towards its first entries); one operation in eight assigns an NFFT or a
     # sampling frequency outside the small pools (any grid size 16..400, rates 1e-2..44100), after which df, the axis length
     # and the estimate are compared with a fresh object as after any other operation
-    op = st.one_of(st.integers(0, n - 1), st.integers(0, n - 1), st.integers(0, n - 1), st.integers(0, n - 1),
-                   st.integers(0, n - 1), st.integers(0, n - 1), st.integers(0, n - 1),
-                   st.one_of(st.tuples(st.just("NFFT"), st.integers(16, 400)),
-                             st.tuples(st.just("sampling"), st.sampled_from([1000.0, 100.0, 8.0, 0.01, 44100.0, 2.0, 3.0]))))
-    hist = [OPS_EXT[cls][i] if isinstance(i, int) else ["set", i[0], i[1]] for i in draw(st.lists(op, min_size=3, max_size=30))]
+    extra = max(1, n // 7)
+    hist = []
+    for i in draw(st.lists(st.integers(0, n + extra - 1), min_size=3, max_size=30)):
+        if i < n:
+            hist.append(OPS_EXT[cls][i])
+        elif draw(st.booleans()):
+            hist.append(["set", "NFFT", draw(st.integers(16, 400))])
+        else:
+            hist.append(["set", "sampling", draw(st.sampled_from([1000.0, 100.0, 8.0, 0.01, 44100.0, 2.0, 3.0]))])
     return {"cls": cls, "d0": d0, "hist": hist}
 
 
-@sub("C07.long", strategy=long_case(), quick=4000, thorough=40000, shards_quick=4,
+@sub("C07.long", strategy=long_case(), quick=12000, thorough=60000, shards_quick=8,
      doc="Hypothesis: histories of 3..30 operations over the extended alphabet, same fresh-object oracle")
 def c07_long(ctx, case):
     body_batch_or_single(ctx, case)
